@@ -181,6 +181,13 @@ REGISTRY = {
                         "index type and shard count are abstracted to one ordered map (C10/C14 treat the sharded index)",
                         "file-system calls do not fail"],
     },
+    "C02": {
+        "corr": lambda tier, seed: corr_engine("C02", tier, seed, "restarts,batches,merges,bigvals", 120, 3000, ops=25,
+                                               dflags=NOEV, oracle_props=["C02"]),
+        "assumptions": ["theorems are about the record-level engine model; the byte-level reader/writer round trip they rest on is C11",
+                        "the restart theorem covers merge-free histories; merges + adoption are exercised by the correspondence run and treated in C06",
+                        "batch ids non-zero (snowflake ids are positive); file-system calls do not fail"],
+    },
     "C05": {
         "corr": lambda tier, seed: corr_engine("C05", tier, seed, "batches,restarts,bigvals", 120, 3000, ops=30,
                                                dflags=NOEV, oracle_props=["C05"]),
